@@ -91,7 +91,7 @@ func (c c03) Gen(rt *rapid.T, thorough bool) any {
 			ops = append(ops, EvOp{
 				Kind: rapid.IntRange(0, 4).Draw(rt, "kind"),
 				Size: rapid.SampledFrom(c03Sizes).Draw(rt, "size"),
-				Ctx:  rapid.IntRange(0, 3).Draw(rt, "ctx") | rapid.SampledFrom([]int{0, 0, 0, 0, 4, 8}).Draw(rt, "ctx_done3"),
+				Ctx:  rapid.IntRange(0, 3).Draw(rt, "ctx") | rapid.SampledFrom([]int{0, 0, 0, 0, 4, 8}).Draw(rt, "ctx_done3") | rapid.SampledFrom([]int{0, 0, 0, 0, 0, 0, 0, 0, 0, 0, 0, 34}).Draw(rt, "ctx_boom"),
 			})
 		}
 		s.Ops = append(s.Ops, ops)
@@ -413,8 +413,16 @@ func (c c03) Run(x *Exec, scn any) {
 		}
 		all = append(all, ts...)
 	}
+	doomed := map[string]bool{}
+	for t, ts := range subs {
+		for i, sb := range ts {
+			if s.Ops[t][i].Ctx&32 != 0 {
+				doomed[sb.ID] = true // the application's own encoder panics for this call; the caller recovered
+			}
+		}
+	}
 	for _, e := range all {
-		if e.Panic != nil {
+		if e.Panic != nil && !(doomed[e.ID] && strings.Contains(fmt.Sprint(e.Panic), "application encoder failed")) {
 			o.violate("log-panic", c.ID()+"/log-call-panic/"+e.PanicAt, "log call %s panicked: %v", e.ID, e.Panic)
 		}
 	}
